@@ -1,1 +1,23 @@
-import SkgVerif.Model.Basic
+-- Root of the `SkgVerif` library: importing every property module makes `lake build` check all
+-- theorems (setup_cmd).
+import SkgVerif.Props.C01
+import SkgVerif.Props.C02
+import SkgVerif.Props.C03
+import SkgVerif.Props.C04
+import SkgVerif.Props.C05
+import SkgVerif.Props.C06
+import SkgVerif.Props.C07
+import SkgVerif.Props.C08
+import SkgVerif.Props.C09
+import SkgVerif.Props.C10
+import SkgVerif.Props.C11
+import SkgVerif.Props.C12
+import SkgVerif.Props.C13
+import SkgVerif.Props.C14
+import SkgVerif.Props.C15
+import SkgVerif.Props.C16
+import SkgVerif.Props.C17
+import SkgVerif.Props.C18
+import SkgVerif.Props.C19
+import SkgVerif.Props.C20
+import SkgVerif.Model.Wire
